@@ -15,6 +15,7 @@ import (
 	"strconv"
 	"strings"
 	"time"
+	"verif/mc/guardpage"
 
 	"github.com/segmentio/encoding/json"
 	"verif/mc/explore"
@@ -231,6 +232,120 @@ func errorExcerpts(c *explore.Ctx) {
 	c.Outcome("excerpts")
 	if c.WantSample() || c.Failed() {
 		c.Case(map[string]any{"lead": lead, "erroneous_token": bad, "calls": n})
+	}
+}
+
+// ---- page-edge: documents and strings that end at the last accessible byte / start at the first one
+
+var edge *guardpage.Region
+
+var edgeAlphabet = []byte(`{}[]",:\-0.eE tfn u` + "\x80\xe2\n\x00a/")
+
+func pageEdge(c *explore.Ctx) {
+	if edge == nil {
+		edge = guardpage.New()
+	}
+	mode := c.Choose(3)
+	first := c.Choose(len(edgeAlphabet))
+	var n int64
+	try := func(doc []byte) {
+		for _, atEnd := range []bool{true, false} {
+			var b []byte
+			if atEnd {
+				b = edge.AtEnd(doc)
+			} else {
+				b = edge.AtStart(doc, '"')
+			}
+			where := map[bool]string{true: "ending at the last accessible byte", false: "starting at the first accessible byte"}[atEnd]
+			heap := append([]byte{}, doc...)
+			type res struct {
+				valid  bool
+				e1, e2 bool
+				a      any
+				s      string
+				toks   int
+				esc    string
+				unesc  string
+			}
+			run := func(in []byte) (r res) {
+				r.valid = json.Valid(in)
+				r.e1 = json.Unmarshal(in, &r.a) != nil
+				r.e2 = json.Unmarshal(in, &r.s) != nil
+				t := json.NewTokenizer(in)
+				for t.Next() && r.toks < len(in)+4 {
+					r.toks++
+					if t.Delim == 0 {
+						r.toks += len(t.String())
+					}
+				}
+				r.esc = string(json.Escape(guardpage.String(in)))
+				if len(in) >= 2 && in[0] == '"' && in[len(in)-1] == '"' && json.Valid(in) {
+					r.unesc = string(json.Unescape(in))
+				}
+				return
+			}
+			var got res
+			var pv any
+			var site string
+			fault, msg := guardpage.Faults(func() { pv, site = explore.Catch(func() { got = run(b) }) })
+			n++
+			if fault || (pv != nil && strings.Contains(fmt.Sprint(pv), "fault address")) {
+				c.Fail("page-edge:reads-outside-the-input", "the %d-byte document %q %s: the package touches memory outside it: %s %v", len(doc), doc, where, msg, pv)
+				continue
+			}
+			if pv != nil {
+				c.Fail("panic:"+site+":"+explore.PanicClass(pv), "the %d-byte document %q %s: panic: %v", len(doc), doc, where, pv)
+				continue
+			}
+			want := run(heap)
+			if got.valid != want.valid || got.e1 != want.e1 || got.e2 != want.e2 || got.toks != want.toks || got.esc != want.esc || got.unesc != want.unesc || got.s != want.s || !reflect.DeepEqual(got.a, want.a) {
+				c.Fail("page-edge:answer-differs", "the %d-byte document %q %s gives other answers than a copy of it elsewhere (Valid %v/%v, Unmarshal errors %v/%v %v/%v, tokens %d/%d)", len(doc), doc, where, got.valid, want.valid, got.e1, want.e1, got.e2, want.e2, got.toks, want.toks)
+			}
+		}
+	}
+	switch mode {
+	case 0: // all byte strings of length 1..4 over the alphabet that start with the chosen byte
+		buf := []byte{edgeAlphabet[first]}
+		var rec func(d int)
+		rec = func(d int) {
+			try(buf)
+			if d == 4 {
+				return
+			}
+			for _, x := range edgeAlphabet {
+				buf = append(buf, x)
+				rec(d + 1)
+				buf = buf[:len(buf)-1]
+			}
+		}
+		rec(1)
+	case 1: // strings of every length 0..80 with the chosen byte in each of the last 9 positions, closed and unclosed
+		for L := 0; L <= 80; L++ {
+			for back := 0; back <= 9 && back <= L; back++ {
+				body := bytes.Repeat([]byte{'a'}, L)
+				if back > 0 {
+					body[L-back] = edgeAlphabet[first]
+				}
+				try(append(append([]byte{'"'}, body...), '"'))
+				try(append([]byte{'"'}, body...))
+				try(append(append([]byte(`["k",`), append(append([]byte{'"'}, body...), '"')...), ']'))
+			}
+		}
+	case 2: // numbers, literals and escapes cut at every length
+		for _, full := range []string{"-1234567890.0123456789e+0123456789", "true", "false", "null", `"\u00e9\ud83d\ude00\n\\"`, "[1,2,3,4,5,6,7,8,9]", `{"key":"value","k2":[true,null]}`, "12345678901234567890123456789012345678901234567890123456789012345678"} {
+			for cut := 0; cut <= len(full); cut++ {
+				try(append([]byte(full[:cut]), edgeAlphabet[first]))
+				if first == 0 {
+					try([]byte(full[:cut]))
+				}
+			}
+		}
+	}
+	c.Inner(n)
+	c.NontrivialStr("edge", fmt.Sprint(mode, first))
+	c.Outcome(fmt.Sprintf("mode=%d", mode))
+	if c.WantSample() || c.Failed() {
+		c.Case(map[string]any{"mode": []string{"all byte strings <= 4", "long strings, special byte near the end", "tokens cut at every length"}[mode], "byte": fmt.Sprintf("%q", edgeAlphabet[first]), "placements": n})
 	}
 }
 
@@ -835,6 +950,7 @@ func Spec() *explore.Spec {
 			{Name: "layouts-encode", ShardDepth: 1, Body: layoutsEncode, Doc: "every type shape of C01 plus pointer-shaped leaves nested 1-3 levels in single-field structs and one-element arrays x boundary values x {by value, by pointer, inside []any, as map value, in a typed slice, in a typed map} x {Marshal, Encoder with indent, Append(0)}"},
 			{Name: "layouts-decode", ShardDepth: 1, Body: layoutsDecode, Doc: "the same type shapes x (34 generic documents incl. mismatching, truncated and malformed ones + the encodings of the type's own boundary values) x {Unmarshal into *T and **T, Decoder with UseNumber, Parse with ZeroCopy|DisallowUnknownFields|DontMatchCaseInsensitiveStructFields}"},
 			{Name: "error-excerpts", ShardDepth: 2, Body: errorExcerpts, Doc: "malformed documents lead + erroneous token + 0..70 bytes (ASCII, spaces, two-byte runes) + one of 12 tails (stray continuation bytes, complete and cut multi-byte runes) for 6 leads x 10 erroneous tokens, through 10 entry points (Valid, Unmarshal into any / struct / []string, Parse, Decoder, Tokenizer, Compact, Indent, Marshal of a RawMessage): what follows the place of the error, at any distance, never makes the call panic"},
+			{Name: "page-edge", ShardDepth: 2, Body: pageEdge, Doc: "documents placed so that they end at the last byte before an inaccessible page, and so that they start at the first byte behind one: all byte strings <= 4 over a 26-byte alphabet, strings of length 0..80 with each alphabet byte in each of the last 9 positions (closed, unclosed, inside an array), numbers / literals / escapes / containers cut at every length: Valid, Unmarshal into any and string, Tokenizer (with String), Escape, Unescape touch nothing outside the document (a fault is caught) and answer as they do for a copy elsewhere"},
 			{Name: "corrupt-typed", ShardDepth: 1, Body: corruptTyped, Doc: "typed documents (encodings of boundary values) truncated at every offset and with every byte replaced by each of 14 structural bytes, decoded into their own type"},
 			{Name: "ladder-decode", ShardDepth: 3, HangSeconds: 300, MaxWorkers: 8, Body: ladderDecode, Doc: "documents nested 100 ... 100,000 (thorough 1,000,000 and 5,000,000) deep in 6 shapes (arrays, objects, mixed, recursive-struct shaped), closed and unclosed, through 14 entry points (Valid, Unmarshal into any / RawMessage / struct{} / []any / map / recursive struct types, Tokenizer, Decoder, Compact, Indent, Parse)"},
 			{Name: "ladder-encode", ShardDepth: 3, HangSeconds: 300, MaxWorkers: 8, Body: ladderEncode, Doc: "values nested 100 ... 100,000 (thorough 1,000,000 and 5,000,000) deep in 7 shapes ([]any, map[string]any, pointer chains, recursive struct via slice / map / pointer, recursive slice type, *any chains) through Marshal / Append / Encoder"},
